@@ -2,6 +2,6 @@ From Coq Require Import Extraction ExtrOcamlBasic.
 From PP Require Import ToStr.ToStringDefs.
 Extraction "model.ml" Z.of_N Z.to_N Z.of_nat Z.to_nat N.of_nat N.to_nat N.add N.mul Z.opp
   fmt_u32 fmt_u64 fmt_i32 fmt_i64 fmt_u16 fmt_i16 fmt_bool fmt_ptr fmt_double
-  dvalue_ok_double dvalue_ok_float s_run stream_cap
+  dvalue_ok_double dvalue_ok_float s_run stream_cap t_run t_destroy block_cap ss_run
   kBytes_bool kBytes_u16 kBytes_i16 kBytes_u32 kBytes_i32 kBytes_u64 kBytes_i64 kBytes_ptr kBytes_double kBytes_float
   kToStringMaxBytes block_queue_min kBlocks.
